@@ -20,6 +20,7 @@ import DimModel.Lib.DatasetOps
 import DimModel.Lib.DatasetInterp
 import DimModel.Lib.InterpLike
 import DimModel.Driver.ExtRed
+import DimModel.Driver.ExtCache
 import DimModel.Driver.ExtC14Ops
 open Lean
 namespace DimModel.Driver
@@ -508,7 +509,7 @@ def handle (op : String) (req : Json) : P (List (String × Json)) := do
       | _ => match dsOpExt fn req with | .ok (some g) => g ds others | _ => .error .other
     pure [("lib", encExcept encDs r)]
   | "redx" => handleRedX req
-  | _ => throw s!"unknown op {op}"
+  | _ => match handleCache op req with | some r => r | none => throw s!"unknown op {op}"
 
 def answer (line : String) : String :=
   match Json.parse line with
